@@ -34,6 +34,7 @@ type c20Step struct {
 	DSSE  bool     `json:"dsse"`
 	Strip bool     `json:"strip"` // absolute paths + --lstrip-paths
 	Ops   []string `json:"ops"`   // what the step's command does (emit operations)
+	Fails int      `json:"fails,omitempty"` // mode run: exit status of the step's command (a linter, grep -c, diff: not every honest step exits 0)
 }
 
 type c20Case struct {
@@ -51,6 +52,7 @@ type c20Case struct {
 	FollowDirs    bool      `json:"follow_dirs,omitempty"`  // --follow-symlink-dirs with a linked directory in the project
 	RunDir        bool      `json:"run_dir,omitempty"`      // commands run in a sub-directory (run --run-dir)
 	OddNames      bool      `json:"odd_names,omitempty"`    // step names with characters that mean something to file-name patterns and shells
+	Revise        bool      `json:"revise,omitempty"`       // the owner changes the signed layout afterwards and signs it again with the same keys
 }
 
 func c20Gen(t *rapid.T) c20Case {
@@ -87,6 +89,12 @@ func c20Gen(t *rapid.T) c20Case {
 		c.Tamper = "no-normalize"
 	}
 	c.OddNames = rapid.IntRange(0, 3).Draw(t, "oddnames") == 0
+	c.Revise = rapid.IntRange(0, 3).Draw(t, "revise") == 0
+	for i := range c.Steps {
+		if c.Steps[i].Mode == "run" && rapid.IntRange(0, 3).Draw(t, "fails") == 0 {
+			c.Steps[i].Fails = rapid.SampledFrom([]int{1, 2, 126, 127, 255}).Draw(t, "status")
+		}
+	}
 	return c
 }
 
@@ -328,10 +336,18 @@ func c20Run(c c20Case, r *hx.Rec) error {
 			if c.RunDir {
 				args = append(args, "-r", "work")
 			}
+			if st.Fails != 0 {
+				ops = append(ops, fmt.Sprintf("x:%d", st.Fails))
+			}
 			args = append(args, "-m", pathArg, "-p", pathArg, "--", emit)
 			args = append(args, ops...)
 			res = cli(e.proj, args...)
 			ms.ExpCommand = append([]string{emit}, ops...)
+			if st.Fails != 0 {
+				// the step was carried out, its command just does not exit 0: the evidence must be there all the
+				// same (what `run` itself exits with in that case is not settled by the statement)
+				res.exit = 0
+			}
 		case "nocommand":
 			// nothing is executed: in-toto only records the directory as it is (materials == products)
 			args := append([]string{"run"}, common...)
@@ -379,6 +395,9 @@ func c20Run(c c20Case, r *hx.Rec) error {
 		} else if lk, ok := md.GetPayload().(intoto.Link); !ok {
 			return fmt.Errorf("the link written by the CLI holds no link")
 		} else {
+			if st.Mode == "run" && fmt.Sprint(lk.ByProducts["return-value"]) != fmt.Sprint(st.Fails) {
+				return fmt.Errorf("step %d: the command exited with status %d, the link written by `run` says %v", i, st.Fails, lk.ByProducts["return-value"])
+			}
 			if !c13Equal(lk.Materials, wantMaterials) {
 				return fmt.Errorf("step %d (%s): recorded materials differ from the directory before the command (options %+v):\n got  %v\n want %v", i, st.Mode, recOpts, lk.Materials, wantMaterials)
 			}
@@ -478,6 +497,43 @@ func c20Run(c c20Case, r *hx.Rec) error {
 		strangerPriv, _ := e.keyFiles("ed25519-3")
 		if res := cli(root, "sign", "--verify", "-f", layoutPath, "-k", strangerPriv); res.exit == 0 {
 			return fmt.Errorf("sign --verify succeeded with a key that never signed")
+		}
+	}
+
+	if c.Revise {
+		// the owner revises the layout (a later expiry) and signs the file again, with the same keys
+		sf, err := hx.ReadSignedFile(layoutPath)
+		if err != nil {
+			return fmt.Errorf("the signed layout is unreadable: %v", err)
+		}
+		const later = "2999-12-31T23:59:58Z"
+		if c.LayoutWrapper == "dsse" {
+			if st, ok := sf.Signed.(map[string]any); ok {
+				st["expires"] = later
+				sf.Tree["payload"] = base64Std(hx.EncodeGeneric(st))
+			}
+		} else if st, ok := sf.Tree["signed"].(map[string]any); ok {
+			st["expires"] = later
+		}
+		_ = os.WriteFile(layoutPath, hx.EncodeGeneric(sf.Tree), 0o644)
+		for i, lk := range c.LayoutKeys {
+			if c.Tamper == "unsigned-layout" && i == len(c.LayoutKeys)-1 {
+				continue
+			}
+			priv, _ := e.keyFiles(lk)
+			if res := cli(root, "sign", "-f", layoutPath, "-k", priv); res.exit != 0 {
+				return fmt.Errorf("signing the revised layout again with %s failed (exit %d): %s", lk, res.exit, res.stderr)
+			}
+			after, err := hx.ReadSignedFile(layoutPath)
+			if err != nil {
+				return fmt.Errorf("the re-signed layout is unreadable: %v", err)
+			}
+			if !after.TruthSigWithID(hx.PoolKey(lk).Priv.Public(), hx.PoolKey(lk).KeyID) {
+				return fmt.Errorf("`sign` exits 0 on the revised layout, but the file carries no signature of %s over its current content (signature entries: %d)", lk, len(after.Sigs))
+			}
+			if res := cli(root, "sign", "--verify", "-f", layoutPath, "-k", priv); res.exit != 0 {
+				return fmt.Errorf("the revised layout was signed again with %s, the file carries a valid signature of that key, but sign --verify exits %d: %s", lk, res.exit, res.stderr)
+			}
 		}
 	}
 
